@@ -14,14 +14,13 @@ CLAIMS = {
              '(entries as uninterpreted-FP terms), that cx swaps exactly the target pairs in the control=1 subspace and is the identity elsewhere, and that refused '
              'operands leave the state untouched. Loops closed by inductive invariants, no unwinding.',
         note=TB + 'Floating-point operators are uninterpreted functions with bitwise equality (rounding of the products and libm accuracy are not verified; the numeric '
-             'value of each matrix is checked only by the native oracle with tolerance 1e-11). NMAX=20 is an object-size bound. The evaluator dispatch '
-             '(built_ins.cpp / eval region) is not under contract.',
+             'value of each matrix is checked only by the native oracle with tolerance 1e-11). NMAX=20 is an object-size bound. The evaluator dispatch block is under contract (unit QEV: one like-named simulator call per built-in name of the real table, own operands in order); how `eval` turns a variable / element / field expression into the qubit handle is not.',
         ref='DESIGN.md §4 C01'),
     'C02': dict(
         text='Proof that measure returns (r < p1) for the single draw r, where p1 is the index-ordered fold of |amp|^2 over the indices with bit q set (ghost fold), '
              'that the surviving branch is old/sqrt(p) and the other branch exactly 0 for every index, flags the qubit, and logs one line; simulator side only.',
         note=TB + 'P(r < p1) = p1 is an assumption on std::uniform_real_distribution/mt19937 (not checkable by contracts). FP operators uninterpreted. '
-             'The evaluator side (value stored in the program / tracked outcome equals the returned bit) is not under contract yet.',
+             'Evaluator side (unit QEV): the MeasureExpression branch of eval and the MeasureStatement branch of exec are proved to consult the lock, measure once per qubit (per array element: loop invariant, ghost element), flag the same qubit, and to return / record / track exactly the simulator\'s bit.',
         ref='DESIGN.md §4 C02'),
     'C03': dict(
         text='Proof of the structural half on the simulator: every operation preserves size == 2^n and the flag-vector invariant; allocateQubit doubles the vector, '
@@ -35,19 +34,19 @@ CLAIMS = {
         text='Proof that reset samples the target as a measurement would (one draw, branch b = r < p1), writes old[gk | b*bit]/sqrt(p_b) into the target=0 half and exact 0 into the '
              'target=1 half for every index, clears the flag and logs one line: the Kraus form {P0, X.P1}, which is what leaves the other qubits\' reduced state unchanged on average.',
         note=TB + 'The step from the Kraus form to "reduced state unchanged" is a written real-arithmetic lemma (DESIGN.md §5 L4), not a code obligation. '
-             'Release/reuse paths in the evaluator that call reset are not under contract yet.',
+             'The ResetStatement branch of exec (unit QEV) is proved to check existence, reset that qubit in the simulator once, then unlock it; the release paths in destroyObject are not under contract.',
         ref='DESIGN.md §4 C04'),
     'C05': dict(
         text='Proof per operation: with logging on, each simulator operation appends exactly one entry whose pieces are the qelib1 spelling with its own operands in order '
              '(none when refused or logging is off), cx refuses identical operands, logged indices are < n; getQasm emits header, qreg/creg sized to n, then every entry in order (ghost index).',
         note=TB + 'Strings are piece lists (literal | int | to_string(double)); std::to_string rendering is trusted. Replay-equivalence is the written induction over these per-op '
-             'contracts and C01/C02/C04. The CLI file/stdout sinks are not under contract yet.',
+             'contracts and C01/C02/C04. The evaluator dispatch (unit QEV) passes each call\'s own operands in order to the like-named simulator operation; the CLI file/stdout sinks are not under contract.',
         ref='DESIGN.md §4 C05'),
     'C06': dict(
         text='Proof of the simulator-side state machine: ensureQubitActive throws Runtime iff the index is out of range or flagged; every gate, cx and measure refuse exactly then and '
              'leave state and log untouched; measure sets the flag of q only; reset and allocateQubit clear it; other flags are kept (ghost index).',
         note=TB + 'Evaluator side (unit QBK): ensureQubitActive raises a Runtime error located at the given line/column iff the handle is out of range or flagged; markMeasured/unmarkMeasured/releaseQubit/allocateTrackedQubit move the '
-             'flag as the state machine says and keep the other entries. NOT verified: that every built-in gate / measure site calls ensureQubitActive before the simulator, the pairing of evaluator and simulator flags across eval/exec, and the access paths.',
+             'flag as the state machine says and keep the other entries. Unit QEV: the gate-dispatch block, the measure expression / statement and the reset statement are proved to consult the lock for every qubit operand, at the position of the call, BEFORE the simulator is touched, never to reach the simulator when the lock refuses, and to flag / unflag exactly the operated qubit. NOT verified: the access paths (how a variable, element, parameter or field expression evaluates to the handle).',
         ref='DESIGN.md §4 C06'),
     'C07': dict(
         text='Kernel only: proof, for every operand tag combination and every operand value (all 2^64 bit patterns per operand), that the BinaryExpression / UnaryExpression / LiteralExpression branches of eval follow the '
@@ -93,7 +92,7 @@ CLAIMS = {
         text='Proof for the lexer (every member function): every loop terminates (decreases clause on bytes left), every source access is in bounds, every cursor move is '
              'forward, and tokenize ends either with exactly one Lexical diagnostic or with a token vector ending in Eof after consuming the whole source - for any byte string up to 1 MiB. '
              'No raw C++ exception (string_view::substr out_of_range) can surface.',
-        note=TB + 'Claim limited to the lexer. Parser, module loader and analyser termination/totality are NOT under contract (recursive descent over unique_ptr trees is outside the lowering); '
+        note=TB + 'Beyond the lexer only isolated pieces are under contract: the inheritance-cycle walk of buildClassRegistry (unit CYC: terminates for every class table - decreases clause over the set of marked names - and answers a cycle with one Semantic error) and the "only Semantic errors at the node" clauses of the analyser rule sites (unit SEMK). The recursive-descent parser, the module loader (observed: @shots(99999999999) surfaces raw `stoi`) and the rest of the analyser are NOT under contract; '
              'the keyword-table lookup is a trusted library model.',
         ref='DESIGN.md §4 C13'),
     'C14': dict(
